@@ -3,6 +3,7 @@
 #include "sim/driver.hpp"
 #include "hexasm.hpp"
 #include "xcmp.hpp"
+#include "gen/xgen.hpp"
 #include <dirent.h>
 
 using sim::Json;
@@ -72,6 +73,20 @@ int main(int argc, char **argv) {
   {
     std::string t = sim::readFile(dir + "/x_features.json");
     if (!t.empty()) for (auto &p : Json::parse(t).a) add(p.getStr("name"), "x", p.getStr("source"), true);
+  }
+  // Generated programs (seeded): xg<k> from xgen, ag<k> from asmgen.
+  int genCount = argc > 3 ? std::atoi(argv[3]) : 0;
+  uint64_t seed = argc > 4 ? std::strtoull(argv[4], nullptr, 0) : 1;
+  for (int k = 0; k < genCount; k++) {
+    sim::Rng r(sim::mix64(seed, 0x9e17, (uint64_t)k));
+    bool isX = k % 3 != 2;
+    std::string name = std::string(isX ? "xg" : "ag") + std::to_string(k);
+    std::string src = isX ? gen::makeX(r) : gen::makeAsm(r);
+    Json in = Json::array();
+    int ni = 1 + (int)r.below(3);
+    for (int q = 0; q < ni; q++) { std::string b; size_t n = (size_t)r.below(8); for (size_t z = 0; z < n; z++) b.push_back((char)(r.chance(1, 3) ? r.below(256) : 1 + r.below(20))); in.push(sim::toHex(b)); }
+    inputs[name] = in;
+    add(name, isX ? "xgen" : "asmgen", src, isX);
   }
   sim::writeFile(argv[2], out.dump() + "\n");
   std::fprintf(stderr, "mkcorpus: %zu images\n", out.size());
